@@ -577,4 +577,9 @@ class Align(Contract):
                   for k, d in enumerate(ds)])
 
     def canaries(self, S, case, env, result):
-        yield "returns-the-inputs-themselves", all(result[t] is env["arrays"][t] for t in range(len(result)))
+        if len(self.CONFIGS[case["cfg"]]) == 1 and not case["sort"]:
+            # one array, no sort: the common axis IS the input's (GetAlignedAxes' sole-owner clause), so align does return the
+            # input itself -- a canary must be something false
+            yield "output-axis-is-empty", S.n(result[0].axes[0].values) == 0
+        else:
+            yield "returns-the-inputs-themselves", all(result[t] is env["arrays"][t] for t in range(len(result)))
